@@ -473,6 +473,7 @@ class IntervalTier(textgrid_tier.TextgridTier):
             interval = Interval(*entry)
         else:
             interval = entry
+        interval = Interval(interval.start, interval.end, interval.label.strip())
 
         matchList = self.crop(
             interval.start, interval.end, CropCollision.LAX, False
